@@ -494,6 +494,45 @@ func (p *Prog) CheckGuardedBy(spec GuardSpec) []Access {
 		}
 		return true, "held by all static callers"
 	}
+	// a helper that is only ever called (statically, never spawned, never taken as a value) from exempt functions runs
+	// in the same phase as they do
+	var exemptByCallers func(fn *ssa.Function, depth int) (string, bool)
+	exemptByCallers = func(fn *ssa.Function, depth int) (string, bool) {
+		callers := p.StaticCallers(fn)
+		if len(callers) == 0 || depth > 2 || len(p.FuncValueUses(fn)) > 0 || fn.Parent() != nil {
+			return "", false
+		}
+		via := ""
+		for _, c := range callers {
+			if _, isGo := c.(*ssa.Go); isGo {
+				return "", false
+			}
+			cf := c.Parent()
+			if cf.Parent() != nil {
+				return "", false // called from a closure (possibly a goroutine body)
+			}
+			name := FuncName(cf)
+			if _, ok := spec.Exempt[name]; ok {
+				via = name
+				continue
+			}
+			// called on a struct the caller has just allocated (constructor phase)
+			if args := c.Common().Args; len(args) > 0 {
+				if _, fresh := args[0].(*ssa.Alloc); fresh {
+					if via == "" {
+						via = name
+					}
+					continue
+				}
+			}
+			if v, ok := exemptByCallers(cf, depth+1); ok {
+				via = v
+				continue
+			}
+			return "", false
+		}
+		return via, via != ""
+	}
 	for i := range accs {
 		a := &accs[i]
 		mode := ModeR
@@ -512,6 +551,12 @@ func (p *Prog) CheckGuardedBy(spec GuardSpec) []Access {
 		default:
 			if r, ok := spec.Exempt[FuncName(a.Fn)]; ok {
 				a.Guard, a.Reason = true, "exempt: "+r
+			} else if via, ok := exemptByCallers(a.Fn, 0); ok {
+				why := spec.Exempt[via]
+				if why == "" {
+					why = "on a freshly allocated struct"
+				}
+				a.Guard, a.Reason = true, "exempt: helper called only from "+via+": "+why
 			} else if ok, why := heldByCallers(a.Fn, 0); ok {
 				a.Guard, a.Reason = true, why
 			} else {
